@@ -117,7 +117,11 @@ class Shapes:
             return ('vec', self.of(split_targs(m.group(1))[0]))
         m = re.match(r'^(?:std::)?array<(.*)>$', s)
         if m:
-            return ('vec', self.of(split_targs(m.group(1))[0]))
+            ta = split_targs(m.group(1))
+            mn = re.match(r'^(\d+)', ta[1].strip()) if len(ta) > 1 else None
+            if mn:
+                return ('vec', self.of(ta[0]), int(mn.group(1)))     # fixed extent, like T[N]
+            return ('vec', self.of(ta[0]))
         m = re.match(r'^base_array<(.*)>$', s)
         if m:
             el = self.of(m.group(1))
